@@ -42,6 +42,18 @@ theorem loop_exactly_n_counts {F : Type} [Div F] [OfNat F 0] (toF : Nat → F) (
     { counter := 0, progress := 0, tests := 0, passes := 0 } (by simp) fuel hf
   exact ⟨s, h1, by simpa using h2, by simpa using h3, h4, h5⟩
 
+/-- General form: entered with the counter already at `c0 ≤ n` (e.g. a loop that is re-entered
+without a `Scope`, so that `Iterations` is not reset) the loop makes the remaining `n − c0` passes.
+(Nested iteration-bounded loops without a `Scope` share the one `Iterations` counter and therefore
+do NOT each make `n` passes — the theorems are about a counter only this loop advances.) -/
+theorem loop_from_counter {F : Type} [Div F] [OfNat F 0] (toF : Nat → F) (n c0 fuel : Nat)
+    (hc : c0 ≤ n) (hf : n - c0 + 1 ≤ fuel) :
+    ∃ s, loopRun toF n 1 c0 fuel = some s ∧
+      s.passes = n - c0 ∧ s.tests = n - c0 + 1 ∧ s.counter = n ∧ s.progress = toF n / toF n := by
+  obtain ⟨s, h1, h2, h3, h4, h5⟩ := loopGo_exact toF n (n - c0)
+    { counter := c0, progress := 0, tests := 0, passes := 0 } (by simp; omega) fuel hf
+  exact ⟨s, h1, by simpa using h2, by simpa using h3, h4, h5⟩
+
 /-- A loop bounded by a counter that the body advances by `step ≥ 1` per pass (evaluation-bounded
 loops) makes the least number `p` of passes with `p · step ≥ n`, and `p + 1` tests. -/
 theorem loop_step_passes {F : Type} [Div F] [OfNat F 0] (toF : Nat → F) (n step fuel : Nat)
@@ -70,23 +82,35 @@ theorem everyN_zero (v : Nat) : everyN 0 v = true ↔ v = 0 := by
 
 /-! ### OptimumReached -/
 
-/-- optimum-reached is true exactly when a best value exists and lies within `eps` above the known
-optimum; as no value is below the optimum this is `|best − optimum| ≤ eps`. -/
+/-- optimum-reached is true exactly when a best value exists and is within `eps` of the known
+optimum. Hypothesis `hlb`: the known optimum is what its name says, a lower bound of every
+objective value (`KnownOptimumProblem`; a best value below it cannot occur on a correct problem). -/
 theorem optimumReached_iff {F : Type} [Field F] [LinearOrder F] [IsStrictOrderedRing F]
+    (eps : F) (best : Option F) (optimum : F) (hlb : ∀ b, best = some b → optimum ≤ b) :
+    optimumReached eps best optimum = true ↔ ∃ b, best = some b ∧ |b - optimum| ≤ eps := by
+  cases best with
+  | none => simp [optimumReached]
+  | some b =>
+    have hb := hlb b rfl
+    simp [optimumReached, abs_of_nonneg (sub_nonneg.mpr hb), add_comm]
+
+/-- Without that hypothesis the code's test is the one-sided `best − optimum ≤ eps`: … -/
+theorem optimumReached_one_sided {F : Type} [Field F] [LinearOrder F] [IsStrictOrderedRing F]
     (eps : F) (best : Option F) (optimum : F) :
-    (optimumReached eps best optimum = true ↔ ∃ b, best = some b ∧ b - optimum ≤ eps) ∧
-    ((∀ b, best = some b → optimum ≤ b) →
-      (optimumReached eps best optimum = true ↔ ∃ b, best = some b ∧ |b - optimum| ≤ eps)) := by
+    optimumReached eps best optimum = true ↔ ∃ b, best = some b ∧ b - optimum ≤ eps := by
+  cases best with
+  | none => simp [optimumReached]
+  | some b => simp [optimumReached, add_comm]
+
+/-- … so a best value BELOW `optimum − eps` (possible only if the problem misdeclares its optimum)
+counts as "reached" although it is not within `eps`; this is outside the property's domain and is
+not flagged by the check. -/
+theorem optimumReached_below {F : Type} [Field F] [LinearOrder F] [IsStrictOrderedRing F]
+    (eps b optimum : F) (he : 0 ≤ eps) (hb : b < optimum - eps) :
+    optimumReached eps (some b) optimum = true ∧ ¬ |b - optimum| ≤ eps := by
   constructor
-  · cases best with
-    | none => simp [optimumReached]
-    | some b => simp [optimumReached, add_comm]
-  · intro h
-    cases best with
-    | none => simp [optimumReached]
-    | some b =>
-      have hb := h b rfl
-      simp [optimumReached, abs_of_nonneg (sub_nonneg.mpr hb), add_comm]
+  · simp only [optimumReached, decide_eq_true_eq]; linarith
+  · rw [abs_of_neg (by linarith)]; intro h; linarith
 
 /-- The constructor accepts exactly the non-negative tolerances. -/
 theorem optimumReachedNew_iff {F : Type} [Field F] [LinearOrder F] [IsStrictOrderedRing F] (eps : F) :
@@ -123,6 +147,55 @@ theorem changeOf_iff {V : Type} (eqv : V → V → Bool) (h : List V) (k : Nat) 
         · simp at hn
   · intro hz; subst hz; rfl
 
+/-- Re-initialisation (`init`, which `Loop::execute` calls on every entry): whatever happened
+before, after an `init` the condition behaves like a fresh one — so `changeOf_iff` applies to the
+evaluations since the last `init`, and the first evaluation after every `init` fires. -/
+theorem changeOf_reinit {V : Type} (eqv : V → V → Bool) (slot : Option (Option V))
+    (pre : List (Option V)) (vs : List V) :
+    changeOfRunR eqv slot (pre ++ none :: vs.map some) =
+      changeOfRunR eqv slot pre ++ (changeOfRun eqv none vs).map some ∧
+    (∀ v rest, vs = v :: rest → ∃ out, changeOfRun eqv none vs = true :: out) := by
+  refine ⟨by rw [changeOfRunR_append_init, changeOfRunR_evals], ?_⟩
+  intro v rest h; subst h
+  exact ⟨changeOfRun eqv (some v) rest, by simp [changeOfRun, changeOfStep]⟩
+
+/-- Several ChangeOf conditions in one state, evaluated / re-initialised / interleaved with
+changes of the observed values in any order: a condition whose `Previous` key is not used by any
+other condition (in the code: whose lens type no other ChangeOf in the state shares) produces
+exactly the verdicts of a single condition run on ITS OWN history. -/
+theorem changeOf_conditions_independent (condOf : Nat → CondSpec) (c : Nat) (evs : List Ev)
+    (vals : Nat → Nat) (f : Frame)
+    (hk : ∀ c' ∈ condsIn evs, (condOf c').key = (condOf c).key → c' = c) :
+    (runFlat condOf { vals := vals, stack := [f] } evs).filterMap
+        (fun o => if o.1 = c then some o.2 else none) =
+      changeOfRunR (condOf c).eqv (f (condOf c).key) (histOf condOf c vals evs) :=
+  runFlat_independent condOf c evs vals f hk
+
+/-- The statement without the hypothesis — every condition follows its own history — … -/
+def changeOf_conditions_private : Prop :=
+  ∀ (condOf : Nat → CondSpec) (c : Nat) (evs : List Ev) (vals : Nat → Nat) (f : Frame),
+    (∀ c', (condOf c').key = (condOf c').lens) →
+    (runFlat condOf { vals := vals, stack := [f] } evs).filterMap
+        (fun o => if o.1 = c then some o.2 else none) =
+      changeOfRunR (condOf c).eqv (f (condOf c).key) (histOf condOf c vals evs)
+
+/-- … is false of the code (recorded finding): two ChangeOf conditions over the SAME lens on one
+registry level share `Previous<L>`. Here condition 1 has never reported anything, yet its first
+evaluation is `false` because condition 0 reported the value before. -/
+theorem changeOf_shared_lens_interferes :
+    let condOf : Nat → CondSpec := fun _ => { lens := 2, key := 2, th := none }
+    let evs := [Ev.init 0, .init 1, .set 2 5, .eval 0, .eval 1]
+    runFlat condOf { vals := fun _ => 0, stack := [fun _ => none] } evs = [(0, some true), (1, some false)] ∧
+    changeOfRunR (condOf 1).eqv none (histOf condOf 1 (fun _ => 0) evs) = [some true] := by
+  decide
+
+theorem changeOf_conditions_not_private : ¬ changeOf_conditions_private := by
+  intro h
+  have := h (fun _ => { lens := 2, key := 2, th := none }) 1
+    [Ev.init 0, .init 1, .set 2 5, .eval 0, .eval 1] (fun _ => 0) (fun _ => none) (fun _ => rfl)
+  revert this
+  decide
+
 /-- The two shipped measures: `PartialEqChecker` is equality, `DeltaEqChecker` is
 "closer than the threshold" (so threshold 0 makes every value a change). -/
 theorem checkers_iff (th a b : Nat) :
@@ -152,20 +225,23 @@ theorem changeOf_objective_not_stable : ¬ changeOf_objective_stable := by
   have := h .pinf .pinf rfl rfl false rfl
   simp [changeOfStep] at this
 
-/-- …and +inf is the only such value: for a finite unchanged value the difference is finite (it is
-exactly 0), so the class-level model leaves the verdict to exact arithmetic, where
-`deltaEq_field_iff` gives `|v − v| = 0 < threshold`: no change for every positive threshold. -/
+/-- …and +inf is the only such value: for a finite unchanged value the difference is exactly 0,
+so the checker answers `0 < threshold` — "equal", hence no change, for every positive threshold. -/
 theorem changeOf_objective_stable_partial (th v : Objective.F64)
-    (hv : Objective.legal v = true) (hne : v ≠ .pinf) : deltaEqObj th v v = none := by
-  have h : (Objective.ovf : Int) > 0 := by exact_mod_cast Objective.ovf_pos
+    (hv : Objective.legal v = true) (hne : v ≠ .pinf) :
+    deltaEqObj th v v = some (Objective.objLt (.fin 0) th) ∧
+    (∀ t : Int, 0 < t → th = .fin t →
+      (changeOfStep (fun _ _ => Objective.objLt (.fin 0) th) (some v) v).1 = false) := by
   cases v with
   | nan => simp [Objective.legal] at hv
   | ninf => simp [Objective.legal] at hv
   | pinf => exact absurd rfl hne
   | fin k =>
-    have hr : Objective.roundCls 0 1 = .fin := by
-      simp [Objective.roundCls]; omega
-    simp [deltaEqObj, Objective.subC, hr]
+    refine ⟨by simp [deltaEqObj], ?_⟩
+    intro t ht hth; subst hth
+    have : Objective.objLt (.fin 0) (.fin t) = true := by
+      simp [Objective.objLt, Objective.objPartialCmp, Objective.pc_fin, Objective.compare_lt_iff, ht]
+    simp [changeOfStep, this]
 
 /-! ### And / Or / Not -/
 
@@ -254,5 +330,10 @@ example : (changeOfRun (deltaEq 2) none [5, 6, 8, 8, 5])[3]? = some false ∧
 example : bernoulliNew (Objective.ofBits 0x3fe0000000000000) = .thr (2 ^ 63) := by decide +kernel
 example : (eval (fun o => if o = 1 then .err else .val true)
     (.and (.cons (.leaf 0 0) (.cons (.leaf 1 1) (.cons (.leaf 2 2) .nil)))) []) = (.err, [0, 1]) := by decide
+
+example : changeOfRunR (partialEq (V := Nat)) none [none, some 5, some 5, none, some 5, some 5] =
+    [some true, some false, some true, some false] := by decide
+example : (loopRun (F := Nat) id 7 1 3 5).map (fun s => (s.passes, s.tests, s.counter)) = some (4, 5, 7) := by decide
+example : loopChangeRun partialEq 2 7 [] = some [1, 1] ∧ loopChangeRun partialEq 2 7 [8, 8] = some [2, 1] := by decide
 
 end MahfModel.Props.C10
